@@ -1,11 +1,11 @@
 CONSTANTS
-  N = 4
-  MaxB = 4
+  N = 5
+  MaxB = 1
   WithInit = TRUE
   EmitCases = FALSE
 INIT Init
 NEXT Next
 VIEW view
-INVARIANTS TypeOK GraphAcyclic TrConsistent InitOrder InitExactlyNeeded InitProgress ProjectionLemma
+INVARIANTS TypeOK GraphAcyclic TrConsistent InitOrder InitExactlyNeeded InitProgress  Emit
 PROPERTIES CycleRejected
 CHECK_DEADLOCK FALSE
